@@ -351,6 +351,7 @@ Lemma push_bad_safe s d cont :
   let ms := ingest_pre (sfs s) t cont ++ [Close t; Unlink t] in
   let fs1 := apply ms (sfs s) in
   Inv (mkSt fs1 (stags s) (sdigs s) (S (sctr s))) /\
+  (forall p, files fs1 p = files (sfs s) p) /\
   forall k, Recoverable H (sfs s) (apply (firstn k ms) (sfs s)) fs1.
 Proof.
   intros I t ms fs1.
@@ -372,7 +373,7 @@ Proof.
     - intros p Hp. rewrite Fo. now apply Tm.
     - destruct Ix as (l & Hl & He). exists l. split; [|exact He].
       unfold read_index. rewrite Fo. exact Hl. }
-  split; [exact I1|]. intro k.
+  split; [exact I1|split; [exact Fo|]]. intro k.
   apply prefix_temp_only; [now apply (only_touch_temp ms t)|].
   apply rec_start. now apply inv_good.
 Qed.
@@ -391,6 +392,7 @@ Lemma push_good_safe s d cont (man : bool) :
   let ms := A ++ Rename t (FBlob d) :: IX in
   let fs1 := apply ms (sfs s) in
   Inv (mkSt fs1 (stags s) digs' (S c)) /\
+  (forall d', exists_file fs1 (FBlob d') = if d' =? d then true else exists_file (sfs s) (FBlob d')) /\
   forall k, Recoverable H (sfs s) (apply (firstn k ms) (sfs s)) fs1.
 Proof.
   intros I Hnew HH c t digs' A IX ms fs1.
@@ -449,7 +451,10 @@ Proof.
     destruct (idx_only_safe (mkSt fsB (stags s) (sdigs s) c) (stags s) digs' IB (inv_tags _ IB) Hd')
       as (I1 & Fnt & _).
     cbn [sfs sctr] in I1, Fnt. fold IX in I1, Fnt. rewrite <- F1 in I1, Fnt.
-    split; [exact I1|]. intro k.
+    split; [exact I1|]. split.
+    { intro d'. unfold exists_file. rewrite Fnt; [|discriminate|reflexivity]. rewrite FBb.
+      now destruct (d' =? d). }
+    intro k.
     destruct (Hsplit k) as [(k' & ->)|(k' & ->)]; [apply Hstart|].
     destruct (Nat.lt_ge_cases k' 4) as [Hk|Hk].
     + (* blob in place, index.json still the old one *)
@@ -469,7 +474,9 @@ Proof.
     assert (F1' : fs1 = fsB) by (rewrite F1; reflexivity).
     assert (I1 : Inv (mkSt fs1 (stags s) (sdigs s) (S c))).
     { rewrite F1'. exact (inv_ctr _ _ _ c (S c) IB). }
-    split; [exact I1|]. intro k.
+    split; [exact I1|]. split.
+    { intro d'. unfold exists_file. rewrite F1', FBb. now destruct (d' =? d). }
+    intro k.
     destruct (Hsplit k) as [(k' & ->)|(k' & ->)]; [apply Hstart|].
     unfold IX. rewrite firstn_nil. cbn [apply fold_left]. rewrite <- F1'.
     apply rec_end. exact (inv_good _ I1).
@@ -503,10 +510,12 @@ Qed.
 Lemma noop_safe s tags digs :
   Inv s -> tags = stags s -> digs = sdigs s ->
   Inv (mkSt (apply [] (sfs s)) tags digs (S (sctr s))) /\
+  (forall p, files (apply [] (sfs s)) p = files (sfs s) p) /\
   forall k, Recoverable H (sfs s) (apply (firstn k []) (sfs s)) (apply [] (sfs s)).
 Proof.
-  intros I -> ->. split.
+  intros I -> ->. split; [|split].
   - destruct I as [L B T D Tm Ix]. constructor; assumption.
+  - reflexivity.
   - intro k. rewrite firstn_nil. apply rec_start. now apply inv_good.
 Qed.
 
@@ -520,9 +529,15 @@ Lemma delete_safe s d :
   let ms := IX ++ UN in
   let fs1 := apply ms (sfs s) in
   Inv (mkSt fs1 tags' digs' (S (sctr s))) /\
+  (forall d', exists_file fs1 (FBlob d') = if d' =? d then false else exists_file (sfs s) (FBlob d')) /\
   forall k, Recoverable H (sfs s) (apply (firstn k ms) (sfs s)) fs1.
 Proof.
   intros I tags' digs' IX UN ms fs1.
+  assert (EU : forall fs d', exists_file (apply1 fs (Unlink (FBlob d))) (FBlob d')
+                             = if d' =? d then false else exists_file fs (FBlob d')).
+  { intros fs d'. unfold exists_file. cbn [apply1 files]. destruct (d' =? d) eqn:E.
+    - apply N.eqb_eq in E. subst d'. now rewrite upd_same.
+    - apply N.eqb_neq in E. rewrite upd_other; [reflexivity|congruence]. }
   assert (Ht' : forall r n, In (r, n) tags' -> In (r, n) (stags s) /\ n <> d).
   { intros r n Hin. apply filter_In in Hin as [Hin E]. split; [exact Hin|].
     cbn in E. apply negb_true_iff in E. now apply N.eqb_neq in E. }
@@ -542,7 +557,8 @@ Proof.
       { rewrite F1. apply (unlink_inv fsM tags' digs' (S (sctr s))); [exact IM| |].
         - intros r n Hin. now apply (Ht' r).
         - intros n Hin. now apply Hd'. }
-      split; [exact I1|].
+      split; [exact I1|]. split.
+      { intro d'. rewrite F1, EU. unfold exists_file. rewrite Fnt; [reflexivity|discriminate|reflexivity]. }
       assert (Mid : Recoverable H (sfs s) fsM fs1).
       { destruct (inv_good _ IM) as (GL & GB & GI). cbn [sfs] in GL, GB, GI.
         repeat split; try assumption.
@@ -565,7 +581,11 @@ Proof.
            rewrite <- F1. apply rec_end. exact (inv_good _ I1).
     + assert (F1 : fs1 = fsM).
       { unfold fs1, ms, UN. now rewrite app_nil_r. }
-      rewrite F1. split; [exact IM|]. intro k. unfold ms, UN. rewrite app_nil_r. apply RM.
+      rewrite F1. split; [exact IM|]. split.
+      { intro d'. unfold exists_file. rewrite Fnt; [|discriminate|reflexivity].
+        destruct (d' =? d) eqn:E; [|reflexivity]. apply N.eqb_eq in E. subst d'.
+        now rewrite (exists_file_false _ _ Ex). }
+      intro k. unfold ms, UN. rewrite app_nil_r. apply RM.
   - (* nothing names d: only the blob file goes *)
     apply orb_false_iff in Eu as [Eu1 Eu2].
     assert (Et : tags' = stags s).
@@ -581,11 +601,16 @@ Proof.
         - destruct s; exact I.
         - intros r n Hin. rewrite <- Et in Hin. now apply (Ht' r).
         - intros n Hin. rewrite <- Ed in Hin. now apply Hd'. }
-      split; [exact I1|]. intro k. unfold ms, IX, UN. cbn [app]. destruct k as [|k].
+      split; [exact I1|]. split; [intro d'; rewrite F1; apply EU|].
+      intro k. unfold ms, IX, UN. cbn [app]. destruct k as [|k].
       * cbn [firstn apply fold_left]. apply rec_start. now apply inv_good.
       * cbn [firstn]. rewrite firstn_nil. change (apply [Unlink (FBlob d)] (sfs s)) with fs1.
         apply rec_end. exact (inv_good _ I1).
-    + apply (noop_safe s tags' digs' I Et Ed).
+    + destruct (noop_safe s tags' digs' I Et Ed) as (N1 & N2 & N3).
+      split; [exact N1|split; [|exact N3]].
+      intro d'. unfold exists_file. rewrite N2.
+      destruct (d' =? d) eqn:E; [|reflexivity]. apply N.eqb_eq in E. subst d'.
+      now rewrite (exists_file_false _ _ Ex).
 Qed.
 
 (* ---------- every operation, every cut ---------- *)
@@ -599,12 +624,15 @@ Qed.
 Lemma op_safe s o :
   Inv s ->
   Inv (runop s o) /\
+  (forall d', exists_file (sfs (runop s o)) (FBlob d')
+              = spec_blobs_step H (fun x => exists_file (sfs s) (FBlob x)) o d') /\
   forall k, Recoverable H (sfs s) (crash_fs H shuffle false s o k) (sfs (runop s o)).
 Proof.
   intro I. unfold run_op, crash_fs, op_steps. destruct o as [d cont man|d r|r|d|].
   - (* Push *)
-    cbn [op_mem]. destruct (exists_file (sfs s) (FBlob d)) eqn:Ex.
-    + apply (noop_safe s _ _ I eq_refl eq_refl).
+    cbn [op_mem spec_blobs_step]. destruct (exists_file (sfs s) (FBlob d)) eqn:Ex.
+    + destruct (noop_safe s _ _ I eq_refl eq_refl) as (N1 & N2 & N3).
+      split; [exact N1|split; [|exact N3]]. intro d'. cbn [sfs]. unfold exists_file. now rewrite N2.
     + apply exists_file_false in Ex. destruct (H cont =? d) eqn:EH; cbn [negb].
       * apply N.eqb_eq in EH.
         pose proof (push_good_safe s d cont man I Ex EH) as P. cbn zeta in P.
@@ -612,30 +640,37 @@ Proof.
         destruct man; cbn [sfs]; exact P.
       * pose proof (push_bad_safe s d cont I) as P. cbn zeta in P.
         unfold ingest_pre in P. rewrite <- !app_assoc in P. cbn [app] in P.
-        destruct man; cbn [sfs]; exact P.
+        destruct P as (P1 & P2 & P3).
+        destruct man; cbn [sfs]; (split; [exact P1|split; [|exact P3]]);
+          intro d'; unfold exists_file; now rewrite P2.
   - (* Tag *)
-    cbn [op_mem]. destruct (exists_file (sfs s) (FBlob d)) eqn:Ex.
+    cbn [op_mem spec_blobs_step]. destruct (exists_file (sfs s) (FBlob d)) eqn:Ex.
     + apply exists_file_true in Ex.
-      destruct (idx_only_safe s (tag_set r d (stags s)) (dig_add d (sdigs s)) I) as (I1 & _ & R1).
+      destruct (idx_only_safe s (tag_set r d (stags s)) (dig_add d (sdigs s)) I) as (I1 & F1 & R1).
       * intros r' n Hin. apply tag_set_In in Hin as [E|Hin]; [injection E as -> ->; exact Ex|].
         now apply (inv_tags s I r').
       * intros n Hin. apply dig_add_In in Hin as [->|Hin]; [exact Ex|now apply (inv_digs s I)].
-      * split; [exact I1|exact R1].
-    + apply (noop_safe s _ _ I eq_refl eq_refl).
+      * split; [exact I1|split; [|exact R1]]. intro d'. cbn [sfs]. unfold exists_file.
+        rewrite F1; [reflexivity|discriminate|reflexivity].
+    + destruct (noop_safe s _ _ I eq_refl eq_refl) as (N1 & N2 & N3).
+      split; [exact N1|split; [|exact N3]]. intro d'. cbn [sfs]. unfold exists_file. now rewrite N2.
   - (* Untag *)
-    cbn [op_mem]. destruct (tag_get r (stags s)) as [x|] eqn:Eg.
-    + destruct (idx_only_safe s (tag_del r (stags s)) (sdigs s) I) as (I1 & _ & R1).
+    cbn [op_mem spec_blobs_step]. destruct (tag_get r (stags s)) as [x|] eqn:Eg.
+    + destruct (idx_only_safe s (tag_del r (stags s)) (sdigs s) I) as (I1 & F1 & R1).
       * intros r' n Hin. unfold tag_del in Hin. apply filter_In in Hin as [Hin _].
         now apply (inv_tags s I r').
       * apply (inv_digs s I).
-      * split; [exact I1|exact R1].
-    + apply (noop_safe s _ _ I eq_refl eq_refl).
+      * split; [exact I1|split; [|exact R1]]. intro d'. cbn [sfs]. unfold exists_file.
+        rewrite F1; [reflexivity|discriminate|reflexivity].
+    + destruct (noop_safe s _ _ I eq_refl eq_refl) as (N1 & N2 & N3).
+      split; [exact N1|split; [|exact N3]]. intro d'. cbn [sfs]. unfold exists_file. now rewrite N2.
   - (* Delete *)
-    cbn [op_mem]. exact (delete_safe s d I).
+    cbn [op_mem spec_blobs_step]. exact (delete_safe s d I).
   - (* SaveIndex *)
-    cbn [op_mem].
-    destruct (idx_only_safe s (stags s) (sdigs s) I (inv_tags s I) (inv_digs s I)) as (I1 & _ & R1).
-    split; [exact I1|exact R1].
+    cbn [op_mem spec_blobs_step].
+    destruct (idx_only_safe s (stags s) (sdigs s) I (inv_tags s I) (inv_digs s I)) as (I1 & F1 & R1).
+    split; [exact I1|split; [|exact R1]]. intro d'. cbn [sfs]. unfold exists_file.
+    rewrite F1; [reflexivity|discriminate|reflexivity].
 Qed.
 
 Lemma inv_init : Inv init.
@@ -669,6 +704,99 @@ Proof.
   intros s fsk. destruct (crash_safe h o k) as (_ & _ & (l & Hl & _) & R & _).
   fold s in Hl, R. fold fsk in Hl, R. destruct R as [R|R]; [left|right];
     exists l, l; rewrite <- R; repeat split; auto.
+Qed.
+
+(* ---------- completed operations: the directory refines the sequential specification ---------- *)
+Lemma save_tagged tags digs n r : In (n, Some r) (save tags digs) <-> In (r, n) tags.
+Proof.
+  unfold save. rewrite in_app_iff. split.
+  - intros [Hin|Hin].
+    + apply in_map_iff in Hin as ([r' n'] & E & Hin). cbn in E. injection E as -> ->. exact Hin.
+    + apply in_map_iff in Hin as (d & E & _). discriminate.
+  - intro Hin. left. apply in_map_iff. exists (r, n). split; [reflexivity|exact Hin].
+Qed.
+
+Lemma tag_get_none r tags : tag_get r tags = None -> forall n, ~ In (r, n) tags.
+Proof.
+  unfold tag_get. destruct (find (fun e => fst e =? r) tags) eqn:E; [discriminate|].
+  intros _ n Hin. pose proof (find_none _ _ E (r, n) Hin) as X. cbn in X.
+  rewrite N.eqb_refl in X. discriminate.
+Qed.
+
+Definition Rel (s : st) (bs : N -> bool) (tg : N -> option N) : Prop :=
+  (forall d, exists_file (sfs s) (FBlob d) = bs d) /\
+  (forall r n, In (r, n) (stags s) <-> tg r = Some n).
+
+Lemma spec_blobs_ext f g o d' :
+  (forall x, f x = g x) -> spec_blobs_step H f o d' = spec_blobs_step H g o d'.
+Proof.
+  intro E. destruct o; cbn; try apply E.
+  - rewrite (E d). destruct (g d); [apply E|]. destruct (H c =? d); [|apply E].
+    destruct (d' =? d); [reflexivity|apply E].
+  - destruct (d' =? d); [reflexivity|apply E].
+Qed.
+
+Lemma rel_step s o bs tg :
+  Inv s -> Rel s bs tg -> Rel (runop s o) (spec_blobs_step H bs o) (spec_tags_step bs tg o).
+Proof.
+  intros I [Rb Rt]. split.
+  - intro d'. destruct (op_safe s o I) as (_ & E & _). rewrite E.
+    apply spec_blobs_ext. exact Rb.
+  - unfold run_op. destruct o as [d cont man|d r|r|d|]; cbn [op_mem spec_tags_step].
+    + (* Push: the tag map does not change *)
+      destruct (exists_file (sfs s) (FBlob d)); [exact Rt|].
+      destruct (negb (H cont =? d)); [exact Rt|]. destruct man; exact Rt.
+    + rewrite <- (Rb d). destruct (exists_file (sfs s) (FBlob d)); cbn [stags]; [|exact Rt].
+      intros r' n. unfold tag_set. cbn [In]. rewrite filter_In. cbn [fst].
+      destruct (r' =? r) eqn:E.
+      * apply N.eqb_eq in E. subst r'. cbn. split.
+        -- intros [Eq|[_ F]]; [injection Eq as <-; reflexivity|discriminate].
+        -- intro Eq. injection Eq as <-. now left.
+      * cbn. rewrite <- Rt. split.
+        -- intros [Eq|[Hin _]]; [|exact Hin]. injection Eq as <- _. rewrite N.eqb_refl in E. discriminate.
+        -- intro Hin. right. now split.
+    + destruct (tag_get r (stags s)) as [x|] eqn:Eg; cbn [stags].
+      * intros r' n. unfold tag_del. rewrite filter_In. cbn [fst].
+        destruct (r' =? r) eqn:E; cbn.
+        -- split; [intros [_ F]; discriminate|discriminate].
+        -- rewrite <- Rt. tauto.
+      * intros r' n. destruct (r' =? r) eqn:E.
+        -- apply N.eqb_eq in E. subst r'. split; [|discriminate].
+           intro Hin. exfalso. exact (tag_get_none r _ Eg n Hin).
+        -- apply Rt.
+    + cbn [stags]. intros r n. rewrite filter_In. cbn [snd]. rewrite Rt.
+      destruct (tg r) as [m|]; [|split; [intros [F _]; discriminate|discriminate]].
+      destruct (m =? d) eqn:E.
+      * apply N.eqb_eq in E. subst m. split; [|discriminate].
+        intros [Eq F]. injection Eq as <-. rewrite N.eqb_refl in F. discriminate.
+      * split.
+        -- intros [Eq _]. exact Eq.
+        -- intro Eq. injection Eq as <-. split; [reflexivity|now rewrite E].
+    + exact Rt.
+Qed.
+
+Lemma rel_run h : forall s bs tg,
+  Inv s -> Rel s bs tg ->
+  Rel (run H shuffle false h s) (fst (spec_run H h bs tg)) (snd (spec_run H h bs tg)).
+Proof.
+  induction h as [|o h IH]; intros s bs tg I R; [exact R|].
+  cbn [run fold_left spec_run]. apply IH; [now apply op_safe|now apply rel_step].
+Qed.
+
+Theorem completed_effects h :
+  let s := run H shuffle false h init in
+  let bs := fst (spec_run H h (fun _ => false) (fun _ => None)) in
+  let tg := snd (spec_run H h (fun _ => false) (fun _ => None)) in
+  (forall d, exists_file (sfs s) (FBlob d) = bs d) /\
+  exists l, read_index (sfs s) = Some l /\ forall r n, tag_of l r n <-> tg r = Some n.
+Proof.
+  intros s bs tg.
+  assert (R0 : Rel init (fun _ => false) (fun _ => None)).
+  { split; [reflexivity|]. intros r n. cbn. split; [contradiction|discriminate]. }
+  destruct (rel_run h init _ _ inv_init R0) as [Rb Rt]. fold s in Rb, Rt. fold bs in Rb. fold tg in Rt.
+  split; [exact Rb|].
+  destruct (inv_index _ (inv_run h init inv_init)) as (l & Hl & He). fold s in Hl, He.
+  exists l. split; [exact Hl|]. intros r n. unfold tag_of. rewrite He, save_tagged. apply Rt.
 Qed.
 
 End Crash.
